@@ -15,22 +15,33 @@ func FindType(term string) schema.ID {
 }
 
 func findType(types map[reflect.Type]schema.ID, term string) schema.ID {
-	schema := toSchema(term)
+	suffix := toSchema(term)
+	// The registry is a map and several types may match the term (two types
+	// of the same name, or a suffix shared by several IDs): prefer the most
+	// exact kind of match and, between equals, the first ID in sort order, so
+	// that a term always resolves to the same schema.
+	var best schema.ID
+	rank := 0
 	for typ, id := range types {
-		if term == string(id) {
-			return id
+		r := 0
+		switch {
+		case term == string(id):
+			r = 4
+		case term == filepath.Base(typ.PkgPath())+"."+typ.Name():
+			r = 3
+		case term == typ.Name():
+			r = 2
+		case strings.HasSuffix(string(id), suffix):
+			r = 1
 		}
-		if term == typ.Name() {
-			return id
+		if r == 0 {
+			continue
 		}
-		if term == filepath.Base(typ.PkgPath())+"."+typ.Name() {
-			return id
-		}
-		if strings.HasSuffix(string(id), schema) {
-			return id
+		if r > rank || (r == rank && id < best) {
+			best, rank = id, r
 		}
 	}
-	return ""
+	return best
 }
 
 var singleCap = regexp.MustCompile("([A-Z])")
